@@ -853,7 +853,7 @@ func c02close(p *Program, r *Report, rule string) {
 		})
 	}
 	// writeClose: never reaches writeControl after a failed bytes(); payload nil exactly for 1005
-	if fn := p.Func("Conn.writeClose"); fn != nil {
+	if fn := p.closeWriter(); fn != nil {
 		p.runTable(r, tableSpec{
 			Rule: rule + ".writeClose", Fn: fn,
 			Atoms: []Atom{intAtom("param:code", []int64{1000, 1005, 1006, 3000}), boolAtom("bytes-ok")},
